@@ -69,6 +69,70 @@ class Renamer(ast.NodeTransformer):
         return node
 
 
+class Flipper(ast.NodeTransformer):
+    """`if c: A else: B`  ->  `if not c: B else: A` for every two-armed if whose else-arm is not an elif chain."""
+
+    def visit_If(self, node):
+        self.generic_visit(node)
+        if node.orelse and not (len(node.orelse) == 1 and isinstance(node.orelse[0], ast.If)):
+            t = node.test
+            if isinstance(t, ast.UnaryOp) and isinstance(t.op, ast.Not):
+                nt = t.operand
+            else:
+                nt = ast.UnaryOp(op=ast.Not(), operand=t)
+            node.test, node.body, node.orelse = nt, node.orelse, node.body
+        return node
+
+
+class Hoister(ast.NodeTransformer):
+    """`f(g(x), y)` as a statement / assigned value  ->  `tmp_h1 = g(x); f(tmp_h1, y)`: call-valued positional arguments are
+    evaluated into fresh locals first (same evaluation order: only arguments preceded by side-effect-free arguments are hoisted;
+    the callee expression must be a plain dotted name)."""
+
+    def __init__(self):
+        self.n = 0
+
+    def _simple(self, e):
+        return isinstance(e, (ast.Name, ast.Constant)) or (isinstance(e, ast.Attribute) and self._simple(e.value))
+
+    def _hoist(self, st, call):
+        pre = []
+        if not isinstance(call, ast.Call) or not self._simple(call.func):
+            return pre
+        for i, a in enumerate(call.args):
+            if isinstance(a, ast.Call) and not any(isinstance(x, (ast.Yield, ast.YieldFrom, ast.Await, ast.Lambda, ast.NamedExpr)) for x in ast.walk(a)):
+                self.n += 1
+                nm = f'tmp_h{self.n}'
+                pre.append(ast.copy_location(ast.Assign(targets=[ast.Name(id=nm, ctx=ast.Store())], value=a), st))
+                call.args[i] = ast.copy_location(ast.Name(id=nm, ctx=ast.Load()), a)
+            elif not self._simple(a):
+                break
+        return pre
+
+    def _block(self, stmts):
+        out = []
+        for st in stmts:
+            st = self.visit(st)
+            pre = []
+            if isinstance(st, ast.Expr) and isinstance(st.value, ast.Call):
+                pre = self._hoist(st, st.value)
+            elif isinstance(st, ast.Assign) and isinstance(st.value, ast.Call) and len(st.targets) == 1 and isinstance(st.targets[0], ast.Name):
+                pre = self._hoist(st, st.value)
+            out.extend(pre)
+            out.append(st)
+        return out
+
+    def generic_visit(self, node):
+        for field in ('body', 'orelse', 'finalbody'):
+            v = getattr(node, field, None)
+            if isinstance(v, list) and v and isinstance(v[0], ast.stmt):
+                setattr(node, field, self._block(v))
+        if isinstance(node, ast.Try):
+            for h in node.handlers:
+                h.body = self._block(h.body)
+        return node
+
+
 def rewrite(d, mode):
     for f in sorted(os.listdir(os.path.join(d, 'disk_objectstore'))):
         if not f.endswith('.py'):
@@ -77,6 +141,12 @@ def rewrite(d, mode):
         tree = ast.parse(open(p, encoding='utf8').read())
         if mode == 'rename':
             tree = ShadowSafe().visit(tree)
+            ast.fix_missing_locations(tree)
+        elif mode == 'hoist':
+            tree = Hoister().visit(tree)
+            ast.fix_missing_locations(tree)
+        elif mode == 'flip':
+            tree = Flipper().visit(tree)
             ast.fix_missing_locations(tree)
         src = ast.unparse(tree) + '\n'
         compile(src, p, 'exec')
